@@ -358,12 +358,23 @@ def run_reconnect(case, st):
     (python-can's does) and on one that leaves that to the library.  The second start is accepted and exactly one
     task transmits for the producer afterwards; after the stop none does."""
     import canopen
+    from canopen.node.base import BaseNode
+
+    class ListenOnlyNode(BaseNode):
+        """A node object of the application's own making (no pdo, no nmt attribute)."""
+
+        def associate_network(self, network):
+            self.network = network
+
+        def remove_network(self):
+            self.network = None
     for kind in RECONNECT_KINDS:
-        for stop_first in (False, True):
+        for stop_first, app_shutdown in ((False, False), (True, False)) + (((False, True),) if case["shutdown_stops"] else ()):
             simenv.new_world()
             bus = simenv.SimBus("inline", modifiable_tasks=case["mod"], shutdown_stops_tasks=case["shutdown_stops"])
             net = canopen.Network()
             bus.attach(net, "net")
+            net.add_node(ListenOnlyNode(4, od()))
             r = net.add_node(canopen.RemoteNode(5, od()))
             loc = net.add_node(canopen.LocalNode(6, od()))
             r.rpdo[1].cob_id, loc.tpdo[1].cob_id = 0x205, 0x186
@@ -396,12 +407,26 @@ def run_reconnect(case, st):
                     r.nmt.stop_node_guarding()
             st.evaluations += 1
             st.nontrivial_n += 1
-            rc = dict(case, kind=kind, stop_first=stop_first)
+            rc = dict(case, kind=kind, stop_first=stop_first, app_shutdown=app_shutdown)
             step = "start"
             try:
                 start()
                 step = "disconnect"
-                net.disconnect()
+                if app_shutdown:
+                    # the application owns the bus and shuts it down itself first (python-can documents shutdown()
+                    # as idempotent): the library's own attempt to stop the cancelled tasks may be refused, but the
+                    # network is disconnected afterwards and can be used again
+                    net.bus.shutdown()
+                    try:
+                        net.disconnect()
+                    except bus._can.CanOperationError:
+                        pass
+                else:
+                    net.disconnect()
+                if net.bus is not None:
+                    st.violation(f"C17:reconnect:{kind}:disconnect-incomplete", rc, "network.bus is None after disconnect()",
+                                 "still set")
+                    continue
                 bus.attach(net, "net")
                 if stop_first:
                     step = "stop after re-connecting"
